@@ -138,6 +138,9 @@ def pandas_ops(F, right, big):
     ops["np:measures:big"] = lambda: canon((np.asarray(big["mline"].length), np.asarray(big["poly"].length),
                                             np.asarray(big["poly"].area), np.asarray(big["mpoly"].area)))
     ops["np:multipoint-box:big"] = lambda: canon(np.asarray(big["mpoint"].intersects_bounds(box)))
+    ops["np:polygon-box:big"] = lambda: canon((np.asarray(big["poly"].intersects_bounds(box)),
+                                               np.asarray(big["mpoly"].intersects_bounds(box)),
+                                               np.asarray(big["mline"].intersects_bounds(box))))
     ops["np:points-in-polygon:big"] = lambda: canon(np.asarray(big["points"].intersects(right["sq"].array[1])))
     return ops
 
@@ -436,18 +439,26 @@ def run(ctx, spec):
     ctx.extra["trials_with_two_threads_inside_at_once"] = builds_seen
 
     # ---- (c) concurrent pack_partitions_to_parquet + fs trace checker ----------------------------------------
-    src = F["lines"]
-    ddf = dd.from_pandas(src, npartitions=5)
-    gold_root = os.path.join(ctx.scratch, "c18-gold")
-    os.makedirs(gold_root)
-    with dask.config.set(scheduler="synchronous"):
-        ddf.pack_partitions_to_parquet(os.path.join(gold_root, "ds.parq"), npartitions=6, p=7)
-    gold = fsmon.dataset_snapshot(os.path.join(gold_root, "ds.parq"))
+    # two sources: a spread-out one (all 6 outputs non-empty) and one with few distinct points
+    # (gaps of empty outputs, so that the surviving parts are renumbered in a chain)
+    from spatialpandas.geometry import PointArray
+    few = np.array([[1, 1], [60, 3], [5, 70], [90, 90], [40, 40]], dtype="float64")
+    src_few = GeoDataFrame({"rid": np.arange(200) + (9 << 24), "g": PointArray(few[np.arange(200) % 5])})
+    sources = [(dd.from_pandas(F["lines"], npartitions=5), 6), (dd.from_pandas(src_few, npartitions=4), 12)]
+    golds = []
+    for gi, (ddf_, k_) in enumerate(sources):
+        gold_root = os.path.join(ctx.scratch, f"c18-gold{gi}")
+        os.makedirs(gold_root)
+        with dask.config.set(scheduler="synchronous"):
+            ddf_.pack_partitions_to_parquet(os.path.join(gold_root, "ds.parq"), npartitions=k_, p=7)
+        golds.append(fsmon.dataset_snapshot(os.path.join(gold_root, "ds.parq")))
     orders = set()
     events_total = 0
     for i in range(p["packs"]):
         workers = [2, 4, 8, 16][i % 4]
         two = (i % 3 == 2)
+        ddf, kout = sources[(i // 2) % 2]
+        gold = golds[(i // 2) % 2]
         root = os.path.join(ctx.scratch, f"c18-pack{i}")
         os.makedirs(os.path.join(root, "tmp"))
         fs = fsmon.MonFS(delay_seed=ctx.seed * 977 + i, delay_p=0.3, delay_max=0.004)
@@ -458,7 +469,7 @@ def run(ctx, spec):
         def do(path):
             try:
                 with dask.config.set(scheduler="threads", num_workers=workers):
-                    ddf.pack_partitions_to_parquet(path, filesystem=fs, npartitions=6, p=7,
+                    ddf.pack_partitions_to_parquet(path, filesystem=fs, npartitions=kout, p=7,
                                                    tempdir_format=tdfmt)
             except BaseException as e:  # noqa: BLE001
                 import traceback
@@ -473,10 +484,11 @@ def run(ctx, spec):
         finally:
             sys.setswitchinterval(old_switch)
         fs.armed = False
-        cfg = f"threads:{workers}:{'two-calls' if two else 'one-call'}:{'ext' if tdfmt else 'inside'}:seed{i}"
+        cfg = f"threads:{workers}:{'two-calls' if two else 'one-call'}:{'ext' if tdfmt else 'inside'}:{'gaps' if kout == 12 else 'full'}:seed{i}"
         ctx.count("concurrent_pack_runs")
         ctx.case(["pack_to_parquet", cfg], nontrivial=True)
-        ctx.sig("pack_to_parquet", f"w{workers}", "two" if two else "one", "ext" if tdfmt else "inside")
+        ctx.sig("pack_to_parquet", f"w{workers}", "two" if two else "one", "ext" if tdfmt else "inside",
+                "empty-outputs" if kout == 12 else "-")
         events_total += len(fs.events)
         orders.add(fsmon.thread_order_string(fs.events))
         if errs:
